@@ -48,9 +48,18 @@ def _marks_doc_small():
                 [Chord((Note('8', mark='q', pitch='c'), Note('8', dots=1, pitch='g', acc='-', decs=((3, 'J'),))))], [Bar(double=True)], [Op('*-')]])
 
 
+def _clef_change_doc():
+    """Clef changes in the middle of a spine (F4 -> C4 -> F4 next to an unchanged G2): the agnostic pair must agree note by note."""
+    from sv.ref.cells import Doc, Header as H, Note, Null, Op
+    from sv.ref.docs import sig
+    return Doc([[H('**kern'), H('**kern')], [sig('*clefF4', 'CLEF'), sig('*clefG2', 'CLEF')], [Note('4', pitch='C'), Note('4', pitch='cc')],
+                [sig('*clefC4', 'CLEF'), Null('*')], [Note('4', pitch='D', decs=((3, 'L'),)), Note('4', pitch='dd')], [Note('8', pitch='E'), Note('8', pitch='ee', acc='-')],
+                [sig('*clefF4', 'CLEF'), sig('*clefC1', 'CLEF')], [Note('2', pitch='F'), Note('2', pitch='ff')], [Op('*-'), Op('*-')]])
+
+
 def load(tier):
     global POOL
-    POOL = [_marks_doc_small()] + [docs.with_clef(d) for i, d in enumerate(docs.mini_docs()) if i in ((0, 1, 6) if tier == 'quick' else (0, 1, 2, 4, 6))] + docs.small()
+    POOL = [_marks_doc_small()] + [docs.with_clef(d) for i, d in enumerate(docs.mini_docs()) if i in ((0, 1, 6) if tier == 'quick' else (0, 1, 2, 4, 6))] + docs.small() + [_clef_change_doc()]
 
 
 class CatSet:
@@ -377,5 +386,5 @@ OBLIGATIONS = [
        shard_of=_shard_d, shards={'quick': 16, 'thorough': 24}, budget_s={'quick': 170, 'thorough': 2400}, untrace=UNTRACE,
        witnesses=[{'d': 0, 'b': [True] * N}], min_confirmed=300,
        symbolic='category set (37 booleans) restricted to selections that keep durations or pitches and the header/terminator frame', enumerated='document selector',
-       bounds={'quick': 'a document with grace / appoggiatura marks and chords + 3 mini documents + 1 small document, six encodings each', 'thorough': '+ 2 more mini documents'}),
+       bounds={'quick': 'a document with grace / appoggiatura marks and chords + 3 mini documents + 1 small document + a document with clef changes in the middle of both spines, six encodings each', 'thorough': '+ 2 more mini documents'}),
 ]
